@@ -5,6 +5,7 @@
 -/
 import AuthProofs.StateInventory
 import AuthProofs.Tls
+import AuthProofs.CodeEquivInternal
 import AuthModel.Generated.Facts
 namespace AuthProps.C20
 open AuthModel AuthModel.Tls
@@ -82,6 +83,19 @@ example : (load oX init { caInline := [], caFile := [], skip := .str (B "true"),
 /-- NO HIDDEN STATE: regenerated inventory of package internal (loader, TLS pool, file watcher), internal/http and internal/k8s: the only mutable state is the watcher table, the pool map and the secret index. -/
 theorem no_hidden_state : InfraInventory := infra_inventory
 
+/-- `BoolStrValue` AS TRANSLATED FROM THE GO SOURCE on this run is the model's `boolStr` with strconv.ParseBool as its
+    oracle: verification is skipped only for the bool `true` or a string ParseBool reads as true (1 t T TRUE true True);
+    unset, null, numbers, the empty string, the spellings of false and junk all mean "verify". Together with
+    `skip_only_when_requested_and_no_ca` this is the "only when that is explicitly requested" of the statement. -/
+theorem code_skip_verify_meaning (env : Go.Env) (v : Pb.Value) (o : Oracle) (ho : o.parseBool = goParseBool) :
+    Code.BoolStrValue env v = .ok (boolStr o (skipOf v)) := code_boolStr env v o ho
+
+example : Code.BoolStrValue {} { Kind := .StringValue (B "true") } = .ok true := by decide
+example : Code.BoolStrValue {} { Kind := .StringValue (B "yes") } = .ok false := by decide
+example : Code.BoolStrValue {} { Kind := .StringValue (B "") } = .ok false := by decide
+example : Code.BoolStrValue {} { isNil := true } = .ok false := by decide
+example : Code.BoolStrValue {} { Kind := .BoolValue true } = .ok true := by decide
+
 end AuthProps.C20
 
 #print axioms AuthProps.C20.trust_decision
@@ -95,3 +109,4 @@ end AuthProps.C20
 #print axioms AuthProps.C20.unparsable_rotation_ignored
 #print axioms AuthProps.C20.pool_and_watchers_locked
 #print axioms AuthProps.C20.no_hidden_state
+#print axioms AuthProps.C20.code_skip_verify_meaning
